@@ -127,6 +127,33 @@ def h_format(L: int) -> bool:
     return fin(ok, c == 3)
 
 
+def h_rescan(a: int, b: int) -> bool:
+    """
+    pre: a >= 1 and b >= 1
+    post: _
+    """
+    # the same file (same relative path) analysed twice in one process with different lengths - what `scan` does when a cached file has changed
+    from vlib.hx import StateSnapshot
+    global _SNAP
+    if _SNAP is None:
+        _SNAP = StateSnapshot()
+    _SNAP.restore()
+    ok = True
+    for L in (a, b):
+        lt = LanguageTotals("Python")
+        m = M("f", L)
+        lt.add(SourceFileEntry("pkg/a.py", "k", "Python", L, [m]))
+        ok = ok and lt.hard_to_maintain == (1 if cat(L) == 2 else 0) and lt.unmaintainable == (1 if cat(L) == 3 else 0) and lt.loc == L
+        ok = ok and SourceFileEntry("pkg/a.py", "k", "Python", L, [m]).profile() == [L if cat(L) == k else 0 for k in range(4)]
+        cr = CheckResult()
+        cr.add(Path("pkg/a.py"), [m])
+        ok = ok and cr.unmaintainable == (1 if cat(L) == 3 else 0) and cr.hard_to_maintain == (1 if cat(L) == 2 else 0)
+    return fin(ok, cat(a) == 2 and cat(b) == 3)
+
+
+_SNAP = None
+
+
 def h_multi(a: int, b: int, c: int) -> bool:
     """
     pre: a >= 1 and b >= 1 and c >= 1
